@@ -36,8 +36,10 @@ def fc_sem(e, rc, fc):
             f, x = a, b
         else:
             f, x = b, a
+        # what is attached: a single format key, or (to the right of its operand) a bracketed group of format keys joined by U/O/X
+        attached = fc[f[1]] if f[0] == "cond" else bool_sem(f, fc)
         if E.denote(x, rc) == "F" or (x[0] == "cond" and E.kind_of(x[1]) == "hint"):
-            return comb(T.AND, fc[f[1]], fc_sem(x, rc, fc))
+            return comb(T.AND, attached, fc_sem(x, rc, fc))
         return None
     return comb(e[0], fc_sem(a, rc, fc), fc_sem(b, rc, fc))
 
@@ -116,6 +118,51 @@ def run(ctx: Ctx) -> None:
         if r.get("ok") != sems[vals]:
             ctx.violation("format_constraint_evaluation of the collected expression differs from the direct reading",
                           {"tree": T.to_json(e), "string": s0, "rc": c["rc"], "fce": fce, "fc": env, "expected": sems[vals], "got": r}, key=f"fceval:{T.to_json(e)}:{sorted(c['rc'].items())}")
+    # a bracketed GROUP of format constraints attached (without operator) to the right of an operand, e.g. "[1]([901] O [902])": the model's domain has a
+    # single key on one side of every juxtaposition, so this shape is checked on the implementation only, with the same direct reading
+    n_group = 0
+    for _ in range(ctx.pick(150, 1500)):
+        rng = ctx.rng
+        x = rng.choice([("cond", "1"), ("cond", "2"), ("cond", "501"), (T.AND, ("cond", "1"), ("cond", "2")), (T.OR, ("cond", "1"), ("cond", "3"))])
+        grp = T.rand_expr(rng, rng.randint(2, 3), lambda r: ("cond", r.choice(E.FC_KEYS[:3])), (T.AND, T.OR, T.XOR))
+        e = (T.THEN, x, grp)
+        r = rng.random()
+        if r < 0.25:
+            e = (rng.choice([T.AND, T.OR]), e, ("cond", "4"))
+        elif r < 0.4:
+            e = (T.AND, (T.THEN, ("cond", "4"), ("cond", "950")), e)
+        elif r < 0.5 and x != ("cond", "501"):  # (a second attachment onto a hint that already carries a group is not implemented by the library)
+            e = (T.THEN, e, ("cond", "950"))
+        if E.invalid_at(e):
+            continue
+        fkeys = E.keys_by_kind(e)["fc"]
+        s0 = T.render(e, T.Style(rng, "min", "upper", "between")).strip()
+        for a in E.assignments(E.keys_by_kind(e)["rc"], "FUK", rng, 27):
+            i = E.eval_rc(T.to_lark(e), a, EC.hints_for(e))
+            n_group += 1
+            ctx.case(("attached-group", T.to_json(e), sorted(a.items())), nontrivial=True)
+            if "err" in i:
+                ctx.violation(f"expression with an attached group of format constraints raises {i['exc']}", {"string": s0, "rc": a}, key=f"group-raise:{s0}")
+                break
+            sems = {vals: fc_sem(e, a, dict(zip(fkeys, vals))) for vals in itertools.product([True, False], repeat=len(fkeys))}
+            fce = i["fce"]
+            if (fce is None) != all(v is None for v in sems.values()):
+                ctx.violation("collected format-constraint expression " + ("missing although format constraints take part" if fce is None else "present although nothing takes part"),
+                              {"string": s0, "rc": a, "fce": fce}, key=f"group-absent:{s0}:{sorted(a.items())}")
+                break
+            if fce is None:
+                continue
+            pf = P.parse_cond(fce)
+            if "err" in pf:
+                ctx.violation("collected format-constraint expression is not well-formed", {"string": s0, "rc": a, "fce": fce}, key=f"group-wf:{fce}")
+                break
+            ft = T.from_json(pf["tree"])
+            bad = next((vals for vals, want in sems.items() if bool_sem(ft, dict(zip(fkeys, vals))) != want), None)
+            if bad is not None:
+                ctx.violation("value of the collected expression differs from the direct reading of the source",
+                              {"string": s0, "rc": a, "fce": fce, "fc": dict(zip(fkeys, bad)), "expected": sems[bad]}, key=f"group-meaning:{s0}:{sorted(a.items())}")
+                break
+    ctx.coverage["attached_group_checks"] = n_group
     ctx.coverage["meaning_checks"] = n_meaning
     # correspondence: presence and flat(parse) gate, layout advisory
     n_diff = 0
